@@ -203,6 +203,24 @@ def graph_cases(run, n):
             graphs.append(UAGraph.from_path(sc.write(sc.sub("g2x"), {"a.xml": twice, "b.xml": minibase.DOC_B})))
         except Exception:  # noqa: BLE001
             pass
+        # the same node on two rows with ids of their own, differing only in a node-reference column (DataType): the internal id must
+        # not decide their order (round 8: the table was sorted before the id column was dropped)
+        try:
+            import pandas as _pd
+            g0 = graphs[0]
+            nd = g0.nodes.copy()
+            cand = nd[(nd["NodeClass"] == "UAVariable") & nd["DataType"].notna()]
+            dts = [int(x) for x in nd[nd["NodeClass"] == "UADataType"]["id"]]
+            for n_extra in (1, 2):
+                var = cand.iloc[0]
+                extra = var.copy()
+                extra["id"] = int(nd["id"].max()) + 1
+                extra["DataType"] = [x for x in dts if x != int(var["DataType"])][n_extra - 1]
+                nd = _pd.concat([nd, _pd.DataFrame([extra])], ignore_index=True).astype(g0.nodes.dtypes.to_dict())
+            graphs.append(UAGraph(nodes=nd, references=g0.references.copy(), namespaces=list(g0.namespaces), models=list(g0.models)))
+            run.count("graph:same-node-on-rows-with-own-ids")
+        except Exception:  # noqa: BLE001
+            pass
         # generated graphs with parallel references (same end points, different types) and repeated names
         for j in range(max(2, n // 8)):
             gg = D.gen_graph(rng, hostile=False, closed=True, values_ok=False)
